@@ -15,11 +15,14 @@ PROP = dict(
         }
     },
     level="proof",
-    technique="Coq proof (invariant preserved by every operation of a multi-pair model incl. the EVM hook's failure branches; induction over histories; "
-              "ERC-20 ledger sum invariant) + vm_compute correspondence and backing monitor against the real erc20 keeper, bank and EVM",
+    technique="Coq proof (invariant preserved by every operation of a multi-pair model incl. the EVM hook's failure branches and whole Ethereum "
+              "transactions whose receipt carries an arbitrary list of logs of several contracts - induction over the list of logs with a "
+              "'credit' invariant between execution and hook; induction over histories; ERC-20 ledger sum invariant) + vm_compute correspondence "
+              "and backing monitor against the real erc20 keeper, bank and EVM (multi-log receipts through a real multicall contract and at keeper level)",
     modelled=[
         "x/erc20/keeper/msg_server.go ConvertCoin/ConvertERC20, convertCoinNativeCoin, convertERC20NativeCoin, convertERC20NativeToken, convertCoinNativeERC20",
-        "x/erc20/keeper/evm_hooks.go PostTxProcessing",
+        "x/erc20/keeper/evm_hooks.go PostTxProcessing (the loop over all logs of a receipt: Transfer / other events, registered / unregistered contracts, "
+        "amount sign, destination, pair switch, burn or mint, payout, every `continue`)",
         "x/erc20/keeper/mint.go MintingEnabled",
         "x/erc20/keeper/proposals.go ToggleConversion",
         "x/erc20/types/params.go",
@@ -28,9 +31,11 @@ PROP = dict(
     ],
     assumptions=[
         "the erc20 module account is a blocked address (wf_blocked; checked by the harness on the real app for every module account)",
-        "no message, Ethereum transaction or bank send originates from the erc20 module address (origin_ok: nobody holds its key)",
+        "no message, Ethereum transaction, call inside a transaction or bank send originates from the erc20 module address (origin_ok / leg_origin_ok: nobody holds its key); "
+        "a contract emits a Transfer log only for a transfer it carried out (honest ledger)",
         "the deployer of an external contract does not apply its BURNER_ROLE (burnCoins, not a standard ERC-20 function) to the module's escrowed tokens (origin_ok); contract not paused",
-        "'equal except self-destroyed tokens' (stuck = 0): no Transfer event to the module address names a blocked address as sender (from_not_blocked)",
+        "'equal except self-destroyed tokens' (stuck = 0): no Transfer event to the module address names a blocked address as sender (from_not_blocked); "
+        "the harness does generate such senders in keeper-level receipts and accounts for them in the ghost counter stuck",
         "registered pairs have pairwise distinct denominations and contracts (registry one-to-one: property C15); contracts alive (no selfdestruct)",
         "message atomicity (a failed message leaves no trace) is cosmos-sdk behaviour, modelled by deliver; amounts below 2^256",
     ],
